@@ -51,7 +51,7 @@ void Value::verify_sig(bool compact) {
     if (type != T_DATA) abort("invalid type (must be data)");
     std::vector<std::vector<uint8_t>> args;
     if (!extract_values(args) || args.size() != 3) abort("invalid input (needs a sighash, a pubkey, and a signature)");
-    if (args[0].size() != 32 && args[0].size() != 64) abort("invalid input (sighash must be 32 or 64 bytes)");
+    if (args[0].size() != 32) abort("invalid input (sighash must be 32 bytes)"); // (uint256 asserts on any other size)
     const uint256 sighash(args[0]);
 
     if (args[1].size() == 32) {
